@@ -121,6 +121,20 @@ Proof.
                  | rewrite get64_put_other by lia ]; rewrite get64_put64 by auto; reflexivity.
 Qed.
 
+(* the latest counter is written once, just before the tail is published *)
+Lemma tx_latest_at pc :
+  get64 (tx_mem_at pc) (latest_idx cap) = match pc with TTail _ _ => tail1 | _ => get64 mm0 (latest_idx cap) end.
+Proof.
+  destruct tx_arith as (A1 & A2 & A3 & A4 & A5 & A6 & A7 & A8 & A9 & A10 & A11 & A12). pose proof CB.
+  destruct HT as (T0 & T8 & TB).
+  assert (in_i64 tail1 = true) by (unfold tail1, in_i64, two63; destruct pad; lia).
+  unfold tx_mem_at, m7, m6, m5, m4, m3, m2, m1. offs.
+  destruct pc; auto; destruct pad eqn:P; try specialize (A9 eq_refl);
+    try (rewrite get64_put64 by auto; reflexivity);
+    repeat first [ rewrite get64_put64_other by lia | rewrite get64_put32_other by lia
+                 | rewrite get64_put_other by lia ]; reflexivity.
+Qed.
+
 (* frame: only the padding header (if any) and the record's own bytes are written in the data area *)
 Lemma tx_frame pc a :
   0 <= a < cap ->
@@ -326,6 +340,9 @@ Qed.
 
 (* ================================================================ receiver side: the seqlock read *)
 Variables (m : mode) (hv : bool).
+(* the version of the receiver: W64 (the code with the first two fixes) or W64R (receive_next validates again) *)
+Variable w : vwidth.
+Hypothesis Hw : w <> W32.
 
 Definition position_of (ch : chan) (x : rx) (e : ent) : Prop :=
   In e (c_log ch) /\ is_pad e = false /\ cursor x = e_pos e /\ record_offset x = e_pos e mod cap.
@@ -375,7 +392,7 @@ Proof. intros [es E] H. unfold allmsgs in *. rewrite E, filter_app, map_app. app
 Record gstate := mkG { g_s : cstate; g_ch : chan; g_ok : bool }.
 
 Definition gstep (g : gstate) (tid : Z) : option gstate :=
-  match step_thread m W64 hv cap (g_s g) tid with
+  match step_thread m w hv cap (g_s g) tid with
   | None => None
   | Some s' =>
       if tid =? 0 then
@@ -395,10 +412,10 @@ Definition ginv (c0 : Z) (g : gstate) : Prop :=
   tinv c0 (c_mem (g_s g)) (c_tx (g_s g)) (g_ch g) /\
   rinv (c_mem (g_s g)) (c_rx (g_s g)) (g_ch g) (g_ok g).
 
-Lemma validate_cmp_true c it b : validate_cmp m W64 cap c it = Ok b -> 0 <= c < 2 ^ 62 -> b = (c + cap >? it).
+Lemma validate_cmp_true c it b : validate_cmp m w cap c it = Ok b -> 0 <= c < 2 ^ 62 -> b = (c + cap >? it).
 Proof.
-  intros H Hc. pose proof CB. unfold validate_cmp in H.
-  rewrite add64_ok in H by (unfold in_i64, two63; lia). cbn in H. congruence.
+  intros H Hc. pose proof CB. unfold validate_cmp in H. destruct w; [contradiction|..];
+  rewrite add64_ok in H by (unfold in_i64, two63; lia); cbn in H; congruence.
 Qed.
 
 Lemma of_outcome_ind {A} (P : rstate -> Prop) r (o : outcome A) kk :
@@ -460,7 +477,7 @@ Proof. split; [reflexivity|right; eexists; split; [reflexivity|intros; discrimin
 Lemma ginv_step c0 g tid g' : ginv c0 g -> gstep g tid = Some g' -> ginv c0 g'.
 Proof.
   intros [TI RI] St. unfold gstep in St.
-  destruct (step_thread m W64 hv cap (g_s g) tid) as [s'|] eqn:E; [|discriminate St].
+  destruct (step_thread m w hv cap (g_s g) tid) as [s'|] eqn:E; [|discriminate St].
   unfold step_thread in E. destruct (tid =? 0) eqn:T0.
   - (* a step of the transmitter *)
     destruct (tx_step cap (c_mem (g_s g)) (c_tx (g_s g))) as [[[t' mm'] ev]|] eqn:TS; [|discriminate E].
@@ -473,7 +490,7 @@ Proof.
       * repeat split; auto. destruct Gr as [es ->]. apply in_or_app. now left.
       * intros Lv. apply Rd. lia.
   - destruct (tid =? 1) eqn:T1; [|discriminate E].
-    destruct (rx_step m W64 hv cap (c_mem (g_s g)) (c_rx (g_s g))) as [[r' ev]|] eqn:RS; [|discriminate E].
+    destruct (rx_step m w hv cap (c_mem (g_s g)) (c_rx (g_s g))) as [[r' ev]|] eqn:RS; [|discriminate E].
     injection E as <-. injection St as <-. unfold ginv. cbn [g_s g_ch g_ok c_mem c_tx c_rx]. split; [exact TI|].
     fold (commit_of (r_pc r') (r_pc (c_rx (g_s g)))).
     set (mm := c_mem (g_s g)) in *. set (r := c_rx (g_s g)) in *. set (ch := g_ch g) in *. set (ok := g_ok g) in *.
@@ -493,6 +510,8 @@ Proof.
     + (* RLatest *)
       cbn [r_set r_pc commit_of]. apply (rinv_plain mm r); auto; try (left; reflexivity); try (right; eexists; split; [reflexivity|exact Logic.I]).
     + (* RLen *)
+      destruct (revalidates w).
+      { cbn [r_set r_pc commit_of]. apply (rinv_plain mm r); auto; left; reflexivity. }
       apply (of_outcome_ind (fun r' => rinv mm r' ch (ok && (if commit_of (r_pc r') (RLen c lp) then genuineb ch (r_rx r') else true)))).
       * cbn [r_die r_pc commit_of]. rewrite Pc. cbn [commit_of]. now apply rinv_die.
       * cbn [r_die r_pc commit_of]. rewrite Pc. cbn [commit_of]. now apply rinv_die.
@@ -502,10 +521,32 @@ Proof.
       * cbn [r_set r_pc commit_of]. apply (rinv_plain mm r); auto; try (left; reflexivity); try (right; eexists; split; [reflexivity|exact Logic.I]).
       * rewrite <- Pc. apply rinv_commit; auto. now rewrite Pc.
     + (* RLen0 *)
-      apply (of_outcome_ind (fun r' => rinv mm r' ch (ok && (if commit_of (r_pc r') (RLen0 lp nr) then genuineb ch (r_rx r') else true)))).
+      apply (of_outcome_ind (fun r' => rinv mm r' ch (ok && (if commit_of (r_pc r') (RLen0 c lp nr) then genuineb ch (r_rx r') else true)))).
       * cbn [r_die r_pc commit_of]. rewrite Pc. cbn [commit_of]. now apply rinv_die.
       * cbn [r_die r_pc commit_of]. rewrite Pc. cbn [commit_of]. now apply rinv_die.
       * intros v _. rewrite <- Pc. apply rinv_commit; auto. now rewrite Pc.
+    + (* RTypeR *)
+      destruct (get32 mm (Z.land (wrap32 c) (cap - 1) + 4) =? PADDING);
+        cbn [r_set r_pc commit_of]; apply (rinv_plain mm r); auto; left; reflexivity.
+    + (* RLen0R *)
+      cbn [r_set r_pc commit_of]. apply (rinv_plain mm r); auto; left; reflexivity.
+    + (* RVal3: the repaired receive_next validates again, then uses the words it read *)
+      apply (of_outcome_ind (fun r' => rinv mm r' ch (ok && (if commit_of (r_pc r') (RVal3 c lp l1 pad l0) then genuineb ch (r_rx r') else true)))).
+      * cbn [r_die r_pc commit_of]. rewrite Pc. cbn [commit_of]. now apply rinv_die.
+      * cbn [r_die r_pc commit_of]. rewrite Pc. cbn [commit_of]. now apply rinv_die.
+      * intros v _. destruct v.
+        2:{ cbn [r_set r_pc commit_of]. apply (rinv_plain mm r); auto; left; reflexivity. }
+        apply (of_outcome_ind (fun r' => rinv mm r' ch (ok && (if commit_of (r_pc r') (RVal3 c lp l1 pad l0) then genuineb ch (r_rx r') else true)))).
+        -- cbn [r_die r_pc commit_of]. rewrite Pc. cbn [commit_of]. now apply rinv_die.
+        -- cbn [r_die r_pc commit_of]. rewrite Pc. cbn [commit_of]. now apply rinv_die.
+        -- intros nr _. destruct pad.
+           ++ apply (of_outcome_ind (fun r' => rinv mm r' ch (ok && (if commit_of (r_pc r') (RVal3 c lp l1 true l0) then genuineb ch (r_rx r') else true)))).
+              ** cbn [r_die r_pc commit_of]. rewrite Pc. cbn [commit_of]. now apply rinv_die.
+              ** cbn [r_die r_pc commit_of]. rewrite Pc. cbn [commit_of]. now apply rinv_die.
+              ** intros nr2 _. rewrite <- Pc. apply rinv_commit; auto. now rewrite Pc.
+           ++ rewrite <- Pc. apply rinv_commit; auto. now rewrite Pc.
+    + (* RLatest3 *)
+      rewrite <- Pc. apply rinv_commit; auto. now rewrite Pc.
     + (* RHLen: receiver.length() *)
       set (r' := of_outcome r _ _).
       assert (C : commit_of (r_pc r') RHLen = false) by (destruct (r_pc r'); reflexivity). rewrite C.
@@ -584,10 +625,10 @@ Proof.
 Qed.
 
 (* the ghost components do not influence the machine *)
-Lemma grun_erase sched : forall g, g_s (grun g sched) = run_schedule m W64 hv cap (g_s g) sched.
+Lemma grun_erase sched : forall g, g_s (grun g sched) = run_schedule m w hv cap (g_s g) sched.
 Proof.
   induction sched as [|t rest IH]; intros g; cbn [grun run_schedule]; auto.
-  unfold gstep. destruct (step_thread m W64 hv cap (g_s g) t) as [s'|] eqn:E; [|apply IH].
+  unfold gstep. destruct (step_thread m w hv cap (g_s g) t) as [s'|] eqn:E; [|apply IH].
   destruct (t =? 0); rewrite IH; reflexivity.
 Qed.
 
@@ -629,7 +670,7 @@ Qed.
 Lemma sent_step all g tid g' : sent_inv all g -> gstep g tid = Some g' -> sent_inv all g'.
 Proof.
   intros [S Ok] St. unfold gstep in St.
-  destruct (step_thread m W64 hv cap (g_s g) tid) as [s'|] eqn:E; [|discriminate St].
+  destruct (step_thread m w hv cap (g_s g) tid) as [s'|] eqn:E; [|discriminate St].
   unfold step_thread in E. destruct (tid =? 0) eqn:T0.
   - destruct (tx_step cap (c_mem (g_s g)) (c_tx (g_s g))) as [[[t' mm'] ev]|] eqn:TS; [|discriminate E].
     injection E as <-. injection St as <-. unfold sent_inv. cbn [g_s g_ch c_tx].
@@ -640,7 +681,7 @@ Proof.
       destruct (t_pc (c_tx (g_s g))); rewrite TD; try (split; [exact S|constructor; [split; auto|auto]]).
       split; auto. rewrite allmsgs_transmit by auto. rewrite <- app_assoc. exact S.
   - destruct (tid =? 1); [|discriminate E].
-    destruct (rx_step m W64 hv cap (c_mem (g_s g)) (c_rx (g_s g))) as [[r' ev]|]; [|discriminate E].
+    destruct (rx_step m w hv cap (c_mem (g_s g)) (c_rx (g_s g))) as [[r' ev]|]; [|discriminate E].
     injection E as <-. injection St as <-. split; assumption.
 Qed.
 
@@ -677,7 +718,7 @@ Qed.
 Theorem seqlock_delivery c0 pre msgs nrecv sched :
   conc_ok c0 pre msgs ->
   let g := grun (ginit c0 pre msgs nrecv) sched in
-  g_s g = run_schedule m W64 hv cap (init_cstate cap c0 pre msgs nrecv) sched /\
+  g_s g = run_schedule m w hv cap (init_cstate cap c0 pre msgs nrecv) sched /\
   (g_ok g = true ->
    Forall (fun res => match res with RMsg ty bs => In (ty, bs) (transmitted_pre cap pre ++ msgs) | _ => True end)
           (r_out (c_rx (g_s g)))).
